@@ -207,7 +207,7 @@ def gen_case(rng, cid):
             lastvals[m] = vals
             objs = [encode_obj(rng, v, plain=rng.random() < 0.45) for v in vals]
             if rng.random() < 0.10:
-                objs.insert(rng.randrange(len(objs) + 1), "null")              # null element: nil rule (hotspot: known finding)
+                objs.insert(rng.randrange(len(objs) + 1), "null")              # null element: nil rule (skipped by LoadRules / by the hotspot parser)
             p, cl = encode_list(rng, objs), "rules"
         elif r < 0.62:
             p, cl = hist[m][-1], "redeliver"
@@ -400,8 +400,9 @@ def run(ctx):
 META = {
     "technique": "Lean 4 proof (handler state machine with converter/DeepEqual/updater as parameters; table-driven JSON-tree codec, generic round trip) "
                  "+ differential correspondence model/impl over payload sequences against the real rule managers",
-    "level_text": ("Theorems in lean/Sentinel/Props/C18.lean, kernel-checked: Handle returns normally for every converter and updater outcome incl. panics; for every "
-                   "byte string (the converter is universally quantified) a delivery either applies exactly the valid rules of the decoded list (up to the module's "
+    "level_text": ("Theorems in lean/Sentinel/Props/C18.lean, kernel-checked: Handle returns normally for every converter and updater outcome incl. panics; for all "
+                   "five parsers and every byte string (text-level JSON parser universally quantified; faithful_or_rejected, at full strength since fix 2a360c1: "
+                   "none of the five converters can panic) a delivery either applies exactly the valid rules of the decoded list (up to the module's "
                    "own rule equality) with a nil error, or returns an error and leaves everything unchanged; exact redelivery is a no-op; empty/null/[] clear; "
                    "fromJson(toJson r) = r for every well-typed record of the five wire types, proved once for any tag table with distinct names; the abstract file "
                    "source converges to the decoded current content and ends cleared after a removal.  Tied to the code by running payload sequences through the real "
